@@ -434,6 +434,23 @@ func c08(c *Ctx) {
 					ok = true
 				}
 			}
+			// or: some element satisfies a predicate that is HasPrefix(element, "gsd_histogram:")
+			for _, cl := range callsIn(ht) {
+				n := calleeName(cl)
+				if !(strings.HasPrefix(n, "slices.ContainsFunc") || strings.HasPrefix(n, "slices.IndexFunc")) || len(cl.Common().Args) != 2 {
+					continue
+				}
+				var pred *ssa.Function
+				switch x := stripConvVal(cl.Common().Args[1]).(type) {
+				case *ssa.Function:
+					pred = x
+				case *ssa.MakeClosure:
+					pred, _ = x.Fn.(*ssa.Function)
+				}
+				if pred != nil && predicateRenders(pred, `strings.HasPrefix(p0,"gsd_histogram:")`) && strings.HasSuffix(pathOf(cl.Common().Args[0]), ".Tags") {
+					ok = true
+				}
+			}
 			r.Check("hasHistogramTag:same-prefix", ok, ht.Pos(), "the presence test and the parser look for the same tag")
 		}
 	})
